@@ -11,12 +11,15 @@ LEVEL = "exploration"
 DESIGN_REF = "DESIGN.md section 4 / C12"
 CHUNK = 4
 RULE = ("(a) unconstrained {QP+quartic, QP+softplus (3 instances each), Rosenbrock} x n in "
-        "{2,3,5,8} x 4 starts (absence of bounds written as None or as infinite pairs) x maxcor {1,3,8} (quick) / 1..8 (thorough), 12 iterations, "
+        "{2,3,5,8} x 4 starts (absence of bounds written as None or as infinite pairs) x maxcor {1,3,8} (quick) / 1..8 (thorough), 12 iterations (and a slice with all variables rescaled to ~1e-6), "
         "ftol=gtol=0: the two evaluation-point sequences (package vs "
         "scipy.optimize.minimize(method='L-BFGS-B')) must agree point by point (1e-6 "
         "relative) up to the first of: end of a sequence, round-off regime, or a DETECTED "
         "documented deviation (short first gradient, first-iteration trial at alpha>=1, "
-        "accepted iterate that is not the last trial); (b) 1-D/2-D quadratics whose start "
+        "accepted iterate that is not the last trial); (a') the same with ftol in {1e-3,1e-7} "
+        "and the objective shifted by {-1e4,-3,0,1e4}: same points AND same number of "
+        "evaluations (stop at the same place) unless a relative decrease of the reference "
+        "run lies within 0.1% of ftol; (b) 1-D/2-D quadratics whose start "
         "places the first trial's decrease ratio on a grid straddling ftol_linesearch=1e-3 "
         "and its slope ratio on a grid straddling gtol_linesearch=0.9; (c) every convex "
         "boxed problem of the C01 letter space (n<=2): same optimal value (1e-9) whenever "
@@ -24,6 +27,8 @@ RULE = ("(a) unconstrained {QP+quartic, QP+softplus (3 instances each), Rosenbro
         "points compared (a,b) / reference is KKT and some variable on a bound (c); "
         "distinct = distinct case")
 ASSUMPTIONS = [
+    "round-off regime = two successive evaluation points of the REFERENCE closer than 1e-9 "
+    "(relative to the size of the variables) or with objective values agreeing to 1e-12",
     "SciPy's L-BFGS-B is the reference implementation of Algorithm 778",
     "'up to rounding' = 1e-6 relative on evaluation points (worst observed 1.8e-8)",
     "the reference itself may stall (observed on 24/6561 convex boxed problems): the final "
@@ -60,6 +65,14 @@ def cases(tier, variants):
                         for m in mcs:
                             yield dict(part="trace", var=v, kind=kind, n=n, inst=var, sv=sv,
                                        maxcor=m)
+        # letter: variables living on a small scale (x ~ 1e-6): f(x) = F(x / 1e-6)
+        for kind in ("quart", "soft"):
+            for n in (2, 5):
+                for var in (0, 1):
+                    for sv in (0, 3):
+                        for m in (1, 3, 8):
+                            yield dict(part="trace", var=v, kind=kind, n=n, inst=var, sv=sv,
+                                       maxcor=m, xscale=1e-6)
         for a in (4.0, 50.0):
             for rho in (3e-5, 3e-4, 5e-4, 9e-4, 1.1e-3, 2e-3, 1e-2, 0.1, 0.3):
                 for n in (1, 2):
@@ -67,12 +80,22 @@ def cases(tier, variants):
             for x0 in (0.5, 0.52, 0.53, 0.55, 8.0, 9.5, 9.9, 10.1, 10.5, 12.0):
                 for n in (1, 2):
                     yield dict(part="straddle", var=v, a=a, x0=x0, n=n, maxcor=3)
+        # stop-test letters: ftol > 0 and an objective shifted by a constant (values << -1,
+        # around 0, >> 1): both implementations must also END at the same evaluation
+        for kind in ("quart", "soft"):
+            for n in (2, 5):
+                for var in (0, 1, 2):
+                    for sv in ((0, 3) if tier == "quick" else range(4)):
+                        for off in (-1e4, -3.0, 0.0, 1e4):
+                            for ftol in (1e-3, 1e-7):
+                                yield dict(part="stop", var=v, kind=kind, n=n, inst=var,
+                                           sv=sv, maxcor=3, off=off, ftol=ftol)
     mc = (5,) if tier == "quick" else (1, 5, 10)
     for n in (1, 2):
         yield from F.convex_cases(n, variants, mc, extra=dict(part="final"))
 
 
-def trace_ours(f, g, x0, m, maxiter, bounds=None, samebuf=False):
+def trace_ours(f, g, x0, m, maxiter, bounds=None, samebuf=False, ftol=0.0):
     from lbfgsb import minimize_lbfgsb
     ev, its = [], []
     if samebuf:
@@ -86,13 +109,13 @@ def trace_ours(f, g, x0, m, maxiter, bounds=None, samebuf=False):
     def ff(x):
         ev.append(np.array(x, copy=True))
         return f(x)
-    res = minimize_lbfgsb(x0=x0.copy(), fun=ff, jac=g, maxcor=m, maxiter=maxiter, ftol=0.0,
+    res = minimize_lbfgsb(x0=x0.copy(), fun=ff, jac=g, maxcor=m, maxiter=maxiter, ftol=ftol,
                           gtol=0.0, maxfun=10 ** 6, bounds=bounds,
                           callback=lambda x, s: its.append((len(ev), np.array(x, copy=True))) and False)
     return ev, its, res
 
 
-def trace_ref(f, g, x0, m, maxiter):
+def trace_ref(f, g, x0, m, maxiter, ftol=0.0, its=None):
     from scipy.optimize import minimize
     ev = []
 
@@ -100,11 +123,12 @@ def trace_ref(f, g, x0, m, maxiter):
         ev.append(np.array(x, copy=True))
         return f(x)
     res = minimize(ff, x0.copy(), jac=g, method="L-BFGS-B",
-                   options=dict(maxcor=m, maxiter=maxiter, ftol=0.0, gtol=0.0, maxfun=10 ** 6))
+                   callback=(None if its is None else (lambda xk: its.append(np.array(xk, copy=True)))),
+                   options=dict(maxcor=m, maxiter=maxiter, ftol=ftol, gtol=0.0, maxfun=10 ** 6))
     return ev, res
 
 
-def compare(po, io, ps, x0, g0):
+def compare(po, io, ps, x0, g0, unit=1.0, f=None):
     """Point-by-point comparison.  A mismatch is a violation unless one of the port's three
     documented deviations *explains it at that position*.
     -> (number of points compared, mismatch detail or None, deviation label or None)"""
@@ -127,10 +151,21 @@ def compare(po, io, ps, x0, g0):
     L = min(len(po), len(ps))
     k = 0
     while k < L:
-        scale = 1 + np.abs(po[k]).max()
+        scale = unit + np.abs(ps[k]).max()
+        # the round-off regime is entered once two successive evaluation points of either
+        # sequence are closer than 1e-9 (relative to the size of the variables)
+        # (judged on the REFERENCE sequence: a port that stalls must not be excused)
+        if k >= 2 and np.abs(ps[k - 1] - ps[k - 2]).max() < 1e-9 * scale:
+            return k, None, "roundoff_regime"
+        # ... or two successive reference values agree to 1e-12: comparisons of objective
+        # values are then decided by rounding
+        if k >= 2 and f is not None:
+            fa, fb = float(f(ps[k - 1])), float(f(ps[k - 2]))
+            if abs(fa - fb) <= 1e-12 * max(abs(fa), abs(fb), 1.0):
+                return k, None, "roundoff_regime"
         err = np.abs(po[k] - ps[k]).max() / scale
         if err > 1e-6:
-            step = np.abs(po[k] - po[k - 1]).max() if k else 1.0
+            step = np.abs(ps[k] - ps[k - 1]).max() if k else 1.0
             if step < 1e-9 * scale:
                 return k, None, "roundoff_regime"
             if lowest_at is not None and k >= lowest_at:
@@ -151,6 +186,11 @@ def run(case):
         if part == "trace":
             f, g = inst(case["kind"], case["n"], case["inst"])
             x0 = start(case["n"], case["sv"], case["var"])
+            if case.get("xscale"):
+                sg, f_, g_ = case["xscale"], f, g
+                f = lambda x: f_(x / sg)          # noqa: E731
+                g = lambda x: g_(x / sg) / sg     # noqa: E731
+                x0 = x0 * sg
         else:
             n, a = case["n"], case["a"]
             Hd = np.diag([a] + [a * 3] * (n - 1))
@@ -164,11 +204,36 @@ def run(case):
                                 bounds=bnds,
                                 samebuf=(part == "trace" and case["sv"] == 2))
         ps, rs = trace_ref(f, g, x0, case["maxcor"], 12 if part == "trace" else 6)
-        k, mis, dev = compare(po, io, ps, x0, g(x0))
+        k, mis, dev = compare(po, io, ps, x0, g(x0), unit=case.get("xscale", 1.0), f=f)
         if mis:
             viol.append(V("evaluation_points_differ_from_reference", **mis))
         return dict(viol=viol, outcome=f"{part}|{dev or 'full'}",
                     nontrivial=core.case_hash(case) if k >= 6 else None,
+                    stats={"points_compared": k})
+    if part == "stop":
+        f0_, g = inst(case["kind"], case["n"], case["inst"])
+        off, ftol = case["off"], case["ftol"]
+        f = lambda x: f0_(x) + off
+        x0 = start(case["n"], case["sv"], case["var"])
+        po, io, ro = trace_ours(f, g, x0, case["maxcor"], 60, ftol=ftol)
+        rits = []
+        ps, rs = trace_ref(f, g, x0, case["maxcor"], 60, ftol=ftol, its=rits)
+        k, mis, dev = compare(po, io, ps, x0, g(x0), f=f)
+        out = dev or "full"
+        if mis:
+            viol.append(V("evaluation_points_differ_from_reference", **mis))
+        elif dev is None and len(po) != len(ps):
+            # borderline: some relative decrease of the reference run within 0.1% of ftol
+            fs = [f(x0)] + [f(x) for x in rits]
+            rr = [(a - b) / max(abs(a), abs(b), 1.0) for a, b in zip(fs, fs[1:])]
+            if any(abs(r - ftol) <= 1e-3 * ftol for r in rr):
+                out = "borderline_stop_guarded"
+            else:
+                viol.append(V("run_ends_at_a_different_evaluation_than_reference",
+                              ours=len(po), reference=len(ps), ours_msg=str(ro.message),
+                              reference_msg=str(rs.message)))
+        return dict(viol=viol, outcome=f"stop|{out}",
+                    nontrivial=core.case_hash(case) if k >= 3 else None,
                     stats={"points_compared": k})
     # same optimal value on convex boxed problems
     from lbfgsb import minimize_lbfgsb
